@@ -17,7 +17,7 @@ PROPERTY = {
         'metadata codec stub for flag sites (native replays use the real pickle codec and the same virtual files)',
     ],
     'bounds': {'documents': '2..3 documents with list-valued keys overridden across the boundary; symbolic delete flag on the root and on a nested mapping of the 2nd document',
-               'arrangements': '9 ways of splitting (separate sources, one multi-document source, top-level !include [..], n top-level includes, file + multi-document source, nested include, key: !include [..], deeper key, multi-document file included under a key)',
+               'arrangements': '10 ways of splitting (incl. a multi-file top-level include followed by documents that are / contain includes) (separate sources, one multi-document source, top-level !include [..], n top-level includes, file + multi-document source, nested include, key: !include [..], deeper key, multi-document file included under a key)',
                'lookup': '2 included names x {including dir, cwd} existence symbolic (different content per directory), nested include relative to the directory the including file was found in',
                '!path': 'file / parent(n), n in 0..4 / cwd / abs, written in a file reached directly, via include from another directory, via nested include'},
     'outside': ['real file systems', '!rec', 'more than 3 files / include nesting deeper than 2'],
@@ -59,7 +59,7 @@ def c06_arrangements(split, arr, dp0, d0, dpm, dm):
     three = split['three']
     docs = _docs(dp0, d0, dpm, dm, three)
     n = len(docs)
-    arr = pick(arr, 9)
+    arr = pick(arr, 10)
     base = _outcome(docs, True)
     for i, d in enumerate(docs):
         vfs_put('/proj/f%d.yaml' % (i + 1), d + '\n')
@@ -89,6 +89,13 @@ def c06_arrangements(split, arr, dp0, d0, dpm, dm):
         vfs_put('/proj/main.yaml', 'o: {key: !include [%s], s: 1}\n' % ', '.join(names))
         res = _outcome(['/proj/main.yaml'], False)
         wrap = ['o', 'key']
+    elif arr == 9:
+        # a top-level include that expands to several documents, FOLLOWED by documents that are / contain includes
+        if n < 3:
+            return True
+        vfs_put('/proj/main.yaml', '!include [f1.yaml, f2.yaml]\n---\n!include f3.yaml\n---\nextra: !include f1.yaml\n')
+        res = _outcome(['/proj/main.yaml'], False)
+        base = _outcome(docs + ['extra: ' + docs[0]], True)
     else:
         vfs_put('/proj/all.yaml', '\n---\n'.join(docs) + '\n')
         vfs_put('/proj/main.yaml', 'key: !include all.yaml\n')
@@ -245,7 +252,9 @@ def c06_path(split, n, e_proj, e_cwd, ref):
 def _splits_arr(tier):
     out = []
     for three in (False, True):
-        for a in range(9):
+        for a in range(10):
+            if a == 9 and not three:
+                continue
             if tier == 'quick' and three and a in (0, 4, 7):
                 continue
             out.append({'three': three, '_pre': 'arr == %d' % a})
@@ -254,7 +263,7 @@ def _splits_arr(tier):
 
 HARNESSES = {
     'c06_arrangements': Harness('c06_arrangements', c06_arrangements,
-                                [('arr', 'int', 0, 8), ('dp0', 'bool'), ('d0', 'bool'), ('dpm', 'bool'), ('dm', 'bool')], _splits_arr,
+                                [('arr', 'int', 0, 9), ('dp0', 'bool'), ('d0', 'bool'), ('dpm', 'bool'), ('dm', 'bool')], _splits_arr,
                                 doc='the same 2..3 documents split 9 ways over sources / documents / includes; symbolic delete flags in the 2nd document', witnesses=('built',)),
     'c06_lookup': Harness('c06_lookup', c06_lookup,
                           [('e1p', 'bool'), ('e1c', 'bool'), ('e2p', 'bool'), ('e2c', 'bool'), ('e3a', 'bool'), ('e3c', 'bool'), ('safe_main', 'bool')],
